@@ -28,7 +28,7 @@ CLAIMS = {
             'Trusted: Lean kernel; native_decide on templateOk/scanOk/sweepOk/formatPosOk; hand model of default.rs/placement.rs/datamasking.rs tied by correspondence; Spec.Regions as my reading of ISO 6.3 / Annex E.',
             'Lean 4 proof (tier N closed checkers with kernel-checked lifts + symbolic invariance through placement, format writer and masks) + differential correspondence'),
     "C04": ('proof',
-            'Lean 4: all 32 format words = BCH(15,5)(level bits, mask) xor 0x5412, all 34 version words = BCH(18,6), side = 17+4v, format words distinct (decide +kernel on regenerated tables); C04_format_in_symbol — in EVERY symbol the model builder returns each position of Figure 25 (both copies) holds the corresponding bit of the BCH word of the REPORTED (level, mask) and masks never touch it; version cells carry the BCH word (C04_version_cells); reported fields = forced options, default Q, classifier mode (C04_fields). Spec verdict on real symbols, exhaustive 4x8x40.',
+            'Lean 4: all 32 format words = BCH(15,5)(level bits, mask) xor 0x5412, all 34 version words = BCH(18,6), side = 17+4v, format words distinct (decide +kernel on regenerated tables); C04_format_in_symbol — in EVERY symbol the model builder returns each position of Figure 25 (both copies) holds the corresponding bit of the BCH word of the REPORTED (level, mask) and masks never touch it; C04_version_in_symbol — in every built symbol of version 7..40 each position of Figure 26 (both copies) holds the corresponding bit of the BCH(18,6) word of the REPORTED version, whatever payload, level and mask (C04_version_cells + 'nothing outside encoding region and format cells ever changes'); that the physically encoded level/mask/version are the reported ones is also read back by the reference decoder in C01_roundtrip; reported fields = forced options, default Q, classifier mode (C04_fields). Spec verdict on real symbols, exhaustive 4x8x40.',
             'Trusted: Lean kernel; native_decide on formatPosOk/versionCellsOk/templateOk/sweepOk/scanOk; translator; ISO figure coordinates as transcribed.',
             'Lean 4 decide +kernel on regenerated tables + symbolic placement theorem + exhaustive differential check'),
     "C06": ('proof',
@@ -42,7 +42,7 @@ CLAIMS = {
     "C08": ("proof",
             "Lean 4, for every legal side, mask and EVERY matrix: the model sweep flips exactly the Data-typed cells where the ISO "
             "Table 10 condition holds (C08_mask_flips: induction over the sweep + native_decide visit-parity fact sweepOk), "
-            "involution, pair difference, same unmasked matrix (C08_involution, C08_pair, C08_unmask_same). Exhaustive unit "
+            "involution, pair difference, same unmasked matrix (C08_involution, C08_pair, C08_unmask_same); C08_final_pair / C08_final_unmask: two FINAL symbols of the same codewords built with masks a and b differ on encoding-region modules exactly where the ISO conditions disagree and are identical on every module that is neither encoding region nor format information, for every codeword sequence and level. Exhaustive unit "
             "correspondence: real datamasking::mask on the real blank symbols 40 x 8 x 2; all 28 mask pairs of real builds.",
             "Trusted: Lean kernel; native_decide on sweepOk; hand model of datamasking.rs tied by exhaustive unit correspondence.",
             "Lean 4 symbolic induction + tier N parity checker + exhaustive differential unit check"),
@@ -116,7 +116,9 @@ CLAIMS = {
             "Lean 4 on the builder state machine, for EVERY history of setter and build calls: the k-th build returns exactly "
             "build(input, options set so far) and leaves the options unchanged (C14_history), the option state depends only on "
             "the last setter per option (C14_last_wins), two histories with the same last setters build the same thing "
-            "(C14_same_final); renderers are functions of (QR, options). Thread schedules are NOT modelled (partial): covered "
+            "(C14_same_final); renderers are functions of (QR, options). C14_interleaving: on an abstract pool of threads with private "
+            "builders and no shared state EVERY schedule leaves every thread where it ends running alone (non-interference). Real Rust "
+            "thread schedules are NOT modelled (partial): that the code has no shared state is covered "
             "by a source audit on every run (no static mut / thread_local / interior mutability / unsafe outside the hooks) "
             "and by 1..16-thread runs of the real builder compared digest by digest with single-threaded runs and the model.",
             "Trusted: Lean kernel; hand model of QRBuilder; the audit regexp; rustc's aliasing guarantees for &self over plain data.",
